@@ -96,3 +96,15 @@ package nut11
 //@ func CanSign
 //@   tags C12
 //@   safety C06 C12
+
+// The canonical witnesses: what the helpers sign is exactly what the verifiers
+// hash (inputs: sha256 of the secret text; outputs: sha256 of the DECODED B_).
+//@ func AddSignatureToInputs
+//@   tags C12
+//@   safety C06 C12
+//@   calls schnorr.Sign asserts @message [C12] bytes(hash) == sha256(bytesOf(proof.Secret)) && privKey == signingKey
+
+//@ func AddSignatureToOutputs
+//@   tags C12
+//@   safety C06 C12
+//@   calls schnorr.Sign asserts @message [C12] hexok(output.B_) && bytes(hash) == sha256(hexdec(output.B_)) && privKey == signingKey
